@@ -68,12 +68,29 @@ def run_unit(unit_name, tier, seed, only_props=None):
             cmd = ["cargo", "test", "--offline", "--lib"] + profile + [unit.TEST_FILTER, "--", "--nocapture", "--test-threads", "8"]
         result["cmd"] = "RUSTFLAGS='--cfg hpbf_verif_native' " + " ".join(cmd)
         try:
-            p = subprocess.run(cmd, cwd=sc.repo, env=env, capture_output=True, text=True,
-                               timeout=getattr(unit, "TIMEOUT", 1800))
-            out = p.stdout + p.stderr
-        except subprocess.TimeoutExpired:
-            result["error"] = "native enumeration timed out"
-            out = ""
+            # own process group: on a timeout the hung test binary (a grandchild) must die, too
+            import signal
+            pr = subprocess.Popen(cmd, cwd=sc.repo, env=env, stdout=subprocess.PIPE, stderr=subprocess.PIPE, text=True, start_new_session=True)
+            try:
+                so, se = pr.communicate(timeout=getattr(unit, "TIMEOUT", 1800))
+            except subprocess.TimeoutExpired:
+                try:
+                    os.killpg(pr.pid, signal.SIGKILL)
+                except ProcessLookupError:
+                    pass
+                so, se = pr.communicate()
+                raise subprocess.TimeoutExpired(cmd, getattr(unit, "TIMEOUT", 1800), output=so, stderr=se)
+            out = so + se
+        except subprocess.TimeoutExpired as te:
+            def _txt(b):
+                return b.decode("utf-8", "replace") if isinstance(b, bytes) else (b or "")
+            out = _txt(te.stdout) + _txt(te.stderr)
+            hung = re.findall(r"N\dCASE ([^\n]*)", out)
+            if hung:
+                # the real code was handed a case that terminates under the reference semantics and did not come back
+                out += "\nthread 'x' (0) panicked at src/<real code>:0:0:\ndid not return within %d s (the reference semantics halts on this case)\n" % getattr(unit, "TIMEOUT", 1800)
+            else:
+                result["error"] = "native enumeration timed out"
         lines = {}
         for m in re.finditer(r"NATIVE (\S+) (OK|FAIL) cases=(\d+)(?: nontrivial=(\d+))?(?: first=(.*))?", out):
             cur = (m.group(2), int(m.group(3)), m.group(5) or "", int(m.group(4)) if m.group(4) else None)
